@@ -41,6 +41,7 @@ var rootCmd = &cobra.Command{
 		err := GenerateSpecAndRoutes(arguments.CliArguments{ConfigPath: "./gleece.config.json"})
 		if err != nil {
 			logger.Fatal("Failed to generate spec and routes: %v", err)
+			os.Exit(1)
 		} else {
 			logger.Info("Spec and routes generation successful")
 		}
